@@ -26,6 +26,16 @@ func boolTable(c *Ctx, rule, key string, fn *ssa.Function, spec func(m map[strin
 		c.Undecided(rule, key, fn.Pos(), "cannot enumerate paths: "+err.Error())
 		return
 	}
+	// bytes.HasPrefix / bytes.Equal against a literal are comparisons of the length and of
+	// constant byte positions
+	for _, p := range paths {
+		for i := range p.Conds {
+			p.Conds[i].Cond = expandBytesPreds(p.Conds[i].Cond)
+		}
+		if p.Ret != nil && len(p.Ret.Results) > 0 {
+			p.Env.memo[p.Ret.Results[0]] = expandBytesPreds(p.Env.Term(p.Ret.Results[0]))
+		}
+	}
 	bases := condBaseTerms(paths)
 	retConsts := map[string]map[string]*big.Int{}
 	for _, p := range paths {
@@ -511,4 +521,93 @@ func ruleTVer(c *Ctx) {
 		}
 		c.Check(setStr(vals) == want, "T-ver", "encoder/"+name, fn.Pos(), "encoder writes version bytes "+setStr(vals), "encoder writes version bytes "+setStr(vals)+", expected "+want)
 	}
+}
+
+// literalBytes: the constant contents of a []byte{...} literal value.
+func literalBytes(v ssa.Value) ([]int64, bool) {
+	sl, ok := v.(*ssa.Slice)
+	if !ok || sl.Low != nil || sl.High != nil {
+		return nil, false
+	}
+	al, ok := sl.X.(*ssa.Alloc)
+	if !ok || al.Referrers() == nil {
+		return nil, false
+	}
+	at, ok := al.Type().Underlying().(*types.Pointer).Elem().Underlying().(*types.Array)
+	if !ok {
+		return nil, false
+	}
+	out := make([]int64, at.Len())
+	for _, r := range *al.Referrers() {
+		switch x := r.(type) {
+		case *ssa.Slice, *ssa.DebugRef:
+		case *ssa.IndexAddr:
+			idx, ok := constInt(x.Index)
+			if !ok || x.Referrers() == nil {
+				return nil, false
+			}
+			for _, rr := range *x.Referrers() {
+				st, ok := rr.(*ssa.Store)
+				if !ok {
+					return nil, false
+				}
+				k, ok := constInt(st.Val)
+				if !ok {
+					return nil, false
+				}
+				out[idx.Int64()] = k.Int64() & 0xff
+			}
+		default:
+			return nil, false
+		}
+	}
+	return out, true
+}
+
+// expandBytesPreds rewrites bytes.HasPrefix(x, lit) as len(x) >= k && x[0] == c0 && ..., and
+// bytes.Equal(x, lit) with len(x) == k.
+func expandBytesPreds(t *T) *T {
+	if t == nil {
+		return t
+	}
+	if t.K == "call" {
+		if call, ok := t.V.(*ssa.Call); ok {
+			if sc := call.Call.StaticCallee(); sc != nil && (sc.String() == "bytes.HasPrefix" || sc.String() == "bytes.Equal") && len(t.Args) == 2 {
+				if lit, ok := literalBytes(call.Call.Args[1]); ok {
+					x := t.Args[0]
+					op := token.GEQ
+					if sc.String() == "bytes.Equal" {
+						op = token.EQL
+					}
+					boolT := types.Typ[types.Bool]
+					res := &T{K: "bin", Op: op, Typ: boolT, Args: []*T{{K: "len", Args: []*T{x}, Typ: types.Typ[types.Int]}, {K: "const", C: constant.MakeInt64(int64(len(lit))), Typ: types.Typ[types.Int]}}}
+					for i, b := range lit {
+						eq := &T{K: "bin", Op: token.EQL, Typ: boolT, Args: []*T{
+							{K: "index", Args: []*T{x, {K: "const", C: constant.MakeInt64(int64(i)), Typ: types.Typ[types.Int]}}, Typ: types.Typ[types.Uint8]},
+							{K: "const", C: constant.MakeInt64(b), Typ: types.Typ[types.Uint8]}}}
+						res = &T{K: "bin", Op: token.LAND, Typ: boolT, Args: []*T{res, eq}}
+					}
+					return res
+				}
+			}
+		}
+	}
+	if len(t.Args) == 0 {
+		return t
+	}
+	changed := false
+	args := make([]*T, len(t.Args))
+	for i, a := range t.Args {
+		args[i] = expandBytesPreds(a)
+		if args[i] != a {
+			changed = true
+		}
+	}
+	if !changed {
+		return t
+	}
+	n := *t
+	n.Args = args
+	n.s = ""
+	return &n
 }
